@@ -34,8 +34,81 @@ def call_prods(facts):
     return out
 
 
+CALLS = r'''
+import json
+from odata_query import ast, exceptions as ex
+from odata_query.grammar import ODataLexer, ODataParser
+TABLE = __TABLE__
+ARGS = ["'a'", "1", "b", "2.5", "c/d"]
+
+
+def outcome(text):
+    try:
+        t = ODataParser().parse(ODataLexer().tokenize(text))
+    except ex.ArgumentCountException as e:
+        return ["argcount", e.function_name, e.exp_min_args, e.exp_max_args, e.n_args_given]
+    except ex.UnknownFunctionException as e:
+        return ["unknown", e.function_name]
+    except Exception as e:
+        return ["error", type(e).__name__]
+    if not isinstance(t, ast.Call):
+        return ["other", type(t).__name__]
+    return ["ok", ".".join(tuple(t.func.namespace) + (t.func.name,)), len(t.args), [type(a).__name__ for a in t.args]]
+
+
+bad, ran = [], 0
+names = sorted(TABLE) + ["nosuch", "Contains", "LENGTH", "geo.area", "geo.Distance", "distance", "my.func", "my.geo.length", "length.of"]
+for name in names:
+    for n in range(0, 5):
+        for named in (False, True):
+            if named and n == 0:
+                continue
+            args = [("p%d=%s" % (i, ARGS[i])) if named else ARGS[i] for i in range(n)]
+            text = "%s(%s)" % (name, ", ".join(args))
+            ns = name.split(".")[:-1]
+            if name in TABLE:
+                lo, hi = TABLE[name]
+                want = ["ok", name, n] if lo <= n <= hi else ["argcount", name, lo, hi, n]
+            elif ns in ([], ["geo"]):
+                want = ["unknown", name]
+            else:
+                want = ["ok", name, n]
+            got = outcome(text)
+            ran += 1
+            if got[:len(want)] != want:
+                bad.append([text, got[:5], want])
+            elif got[0] == "ok":
+                kinds = got[3]
+                exp_kinds = ["NamedParam"] * n if named else [{"'a'": "String", "1": "Integer", "b": "Identifier", "2.5": "Float", "c/d": "Attribute"}[ARGS[i]] for i in range(n)]
+                if kinds != exp_kinds:
+                    bad.append([text, kinds, exp_kinds])
+print(json.dumps({"violates": bool(bad), "problems": bad[:6], "count": len(bad), "ran": ran}))
+'''
+
+
+def bounded_calls(facts, tier):
+    """Bounded stand-in (labelled, never counted): every table function and a few unknown / namespaced / differently cased names,
+    0..4 positional and 1..4 named arguments, through the real lexer and parser, against the specification table."""
+    import time
+    from vc.runner import native_run
+    from contracts.grammar_common import ARITY_TABLE
+    t0 = time.time()
+    script = CALLS.replace("__TABLE__", repr({k: list(v) for k, v in ARITY_TABLE.items()}))
+    nat = native_run(script, timeout=600)
+    name = "C11:calls:bounded"
+    if "problems" not in nat:
+        return [{"name": name, "clause": "bounded", "bounded": True, "status": "undecided", "seconds": time.time() - t0,
+                 "reason": str(nat)[:300], "bound": "native run failed"}]
+    ok = not nat["violates"]
+    return [{"name": name, "clause": "bounded", "bounded": True, "status": "discharged" if ok else "refuted", "seconds": time.time() - t0,
+             "backend": "real lexer + parser vs the specification's arity table (bounded, not a proof)",
+             "bound": f"{len(ARITY_TABLE)} table functions + 9 other names x 0..4 positional / 1..4 named arguments ({nat['ran']} calls)",
+             "reason": "accepted / refused exactly as the table says, arguments kept in order" if ok else str(nat["problems"][:2])[:400],
+             "solver_output": str(nat["problems"][:3])[:800], "native_script": script}]
+
+
 def families(facts):
-    return ["cfg.table", "_function_call"] + [f"prod[{pr['number']}]" for pr in call_prods(facts)] + ["canary"]
+    return ["cfg.table", "_function_call"] + [f"prod[{pr['number']}]" for pr in call_prods(facts)] + ["bounded.calls", "canary"]
 
 
 def known_regions(c, prod):
@@ -45,6 +118,8 @@ def known_regions(c, prod):
 
 def run_family(facts, fam, tier):
     timeout = TIMEOUT[tier]
+    if fam == "bounded.calls":
+        return bounded_calls(facts, tier)
     if fam == "cfg.table":
         # the tree's ODATA_FUNCTIONS against the independent table: reported per name (diagnostic; the
         # deciding obligations are the _function_call ones)
@@ -87,6 +162,8 @@ def run_family(facts, fam, tier):
 
 def replay_spec(facts, r):
     """Replay through the real parser: name(args...) for the witness name / count (or the table row)."""
+    if r.get("bounded") and r.get("native_script"):
+        return {"native_script": r["native_script"], "input_text": r.get("bound"), "required": "accepted iff name and argument count match the table"}
     w = r.get("witness") or {}
     if "tree" in w:
         return G.production_replay_spec(facts, r)
